@@ -35,7 +35,23 @@ ASSUMPTIONS = ["std::set / std::multiset of libstdc++ 12 with the corresponding 
 TRUSTED = ["hand model Tetl/C09/Model.lean tied to the source by the correspondence run (R1) on every run",
            "spec Tetl/C09/Spec.lean validated against libstdc++ std::set/std::multiset (R2) on every run",
            "the harness' minimal inplace-vector-like container (mini_vec) is test code, modelled by its contract"]
-THEOREMS = {}
+THEOREMS = {
+    "insert": ["Tetl.C09.Props.ssInsert_eq", "Tetl.C09.Props.fsEmplace_eq", "Tetl.C09.Props.fiEmplace_eq",
+               "Tetl.C09.Props.full_insert_new_key", "Tetl.C09.Props.run_refines"],
+    "insert_range": ["Tetl.C09.Props.ssInsertRange_eq", "Tetl.C09.Props.fsInsertRange_eq", "Tetl.C09.Props.run_refines"],
+    "erase_key": ["Tetl.C09.Props.ssEraseKey_eq", "Tetl.C09.Props.fsEraseKey_eq", "Tetl.C09.Props.run_refines"],
+    "erase_at": ["Tetl.C09.Props.ssEraseAt_eq", "Tetl.C09.Props.run_refines"],
+    "erase_range": ["Tetl.C09.Props.ssEraseRange_eq", "Tetl.C09.Props.run_refines"],
+    "find": ["Tetl.C09.Props.ssFind_eq", "Tetl.C09.Props.findLB_eq"],
+    "contains": ["Tetl.C09.Props.ssFind_eq", "Tetl.C09.Props.findLB_eq", "Tetl.C09.Props.step_refines"],
+    "count": ["Tetl.C09.Props.ssFind_eq", "Tetl.C09.Props.findLB_eq", "Tetl.C09.Props.step_refines"],
+    "lower_bound": ["Tetl.C09.Props.lowerBound_eq"],
+    "upper_bound": ["Tetl.C09.Props.upperBound_eq"],
+    "equal_range": ["Tetl.C09.Props.equalRange_eq"],
+    "clear": ["Tetl.C09.Props.step_refines"], "swap": ["Tetl.C09.Props.step_refines"],
+    "extract": ["Tetl.C09.Props.step_refines"], "replace": ["Tetl.C09.Props.step_refines"],
+    "new": ["Tetl.C09.Props.ssInsertRange_eq", "Tetl.C09.Props.fsInsertRange_eq", "Tetl.C09.Props.inv_history"],
+}
 SEARCH_CAP = 400000
 
 KINDS = ["ss", "fs", "fi"]
@@ -300,4 +316,17 @@ LEVEL_NOTE = ("Trusted: Lean kernel + propext/Classical.choice/Quot.sound; the h
               "is == (true for less/greater on integers). Members listed in coverage.correspondence_only are modelled and compared on "
               "every run but enter the history theorem through an explicitly stated container contract rather than a proved loop.")
 # members modelled and compared on every run whose loop-level model has no Lean theorem (yet)
-CORRESPONDENCE_ONLY = []
+CORRESPONDENCE_ONLY = [
+    "flat_multiset(KeyContainer) = gnome_sort (gnomeSort is modelled and compared with std::multiset on every run; "
+    "the sorted-permutation theorem C09.multiset_sorted_perm of DESIGN §4 is not proved)",
+    "swap: static_vector::swap / move assignment underneath static_set::swap and flat_set::swap are modelled as an exchange of the two lists",
+    "clear / extract / replace: the container's clear() and move are modelled as list assignment",
+    "heterogeneous (K const&) and const overloads: same C++ body as the homogeneous/non-const overload; the model uses one definition "
+    "for both, so the theorems cover them only through the correspondence run (a key of another type is compared through lt on its value)",
+    "insert(const_iterator hint, x) / emplace_hint: forwards to emplace; the hint is ignored by the model as by the code",
+    "reverse iteration (rbegin/rend), empty(), max_size(), full(): observed by the harness on every line, no theorem",
+    "flat_set over the harness' inplace-vector-like container: the container's emplace/erase are a stated contract (miniEmplace/miniErase), "
+    "not tetl code; flat_set's own algorithm on top of it is proved (fiEmplace_eq, step_refines)",
+    "constructors: range / container constructors are proved through ssInsertRange_eq / fsInsertRange_eq; the sorted_unique "
+    "constructors take the container as is (precondition: sorted and unique)",
+]
